@@ -284,6 +284,10 @@ class FactoryOracle:
             if L.cur_src_item is not None and L.cur_src_item.state == "CREATED":
                 self.mon.violation("C03", "source_holds_two", "source:second-item-created-while-one-is-still-held",
                                    {"source": L.id, "held": L.cur_src_item.iid, "new": item.id})
+                if getattr(L.node, "blocking", None):
+                    # a blocking source went on to the next item without having delivered this one: it was discarded, uncounted
+                    self.mon.violation("C09", "blocking_discarded", "source:blocking-source-abandoned-an-item-it-had-generated",
+                                       {"source": L.id, "abandoned": L.cur_src_item.iid, "new": item.id})
             L.cur_src_item = st
         self.mon.counters["items_created"] += 1
 
@@ -560,8 +564,11 @@ class FactoryOracle:
             if sx.state == "DISCARDED" and sx.where == L.id:
                 mon.violation("C09", "discard_count_step", f"{L.type}:discard-counter-rose-more-than-once-for-one-dropped-item",
                               {"node": L.id, "item": sx.iid, "count": new})
+                mon.violation("C18", "discarded_counter", f"{L.type}:discard-counter-rose-more-than-once-for-one-dropped-item",
+                              {"node": L.id, "item": sx.iid, "count": new})
         self._set(sx, "DISCARDED", L.id)
-        L.discards.append((now, sx.iid))
+        if ok:
+            L.discards.append((now, sx.iid))      # only real drops count (C18: counter == items actually dropped)
         self.events.append((now, "discard", L.id, sx.iid))
         u0 = self._unit_of_proc(L, proc)
         if u0 is not None:
@@ -768,6 +775,13 @@ class FactoryOracle:
         if not legal:
             mon.violation("C03", "put_not_held", f"{L.type if L else '?'}:put-of-an-item-the-node-does-not-hold",
                           {"node": nid, "item": sx.iid, "state": (sx.state, sx.where), "edge": edge.id})
+            if L is not None and sx.state == "DISCARDED" and sx.where == nid:
+                # the node counted this item as discarded and now delivers it: the discard counter is untruthful (C18)
+                for i_ in range(len(L.discards) - 1, -1, -1):
+                    if L.discards[i_][1] == sx.iid:
+                        del L.discards[i_]
+                        break
+                mon.violation("C18", "discarded_counter", f"{L.type}:item-counted-as-discarded-was-delivered", {"node": nid, "item": sx.iid})
         if edge.src_node is not (L.node if L else None):
             mon.violation("C03", "put_wrong_edge", "factory:put-into-an-edge-by-a-node-that-is-not-its-source",
                           {"node": nid, "edge": edge.id})
@@ -1081,6 +1095,9 @@ class FactoryOracle:
                     if id(st.item) not in refs:
                         mon.violation("C03", "item_vanished", f"{L.type}:item-in-node-is-no-longer-referenced-by-the-node",
                                       {"node": L.id, "item": st.iid, "since": st.t_state})
+                        if getattr(node, "blocking", None) and L.type != "sink":
+                            mon.violation("C09", "blocking_discarded", f"{L.type}:blocking-node-let-go-of-an-item-it-had-taken-in",
+                                          {"node": L.id, "item": st.iid, "since": st.t_state})
             # ---------------- counters (C18 / C03)
             stt = node.stats
             if L.type == "source":
